@@ -3,22 +3,38 @@ Shares the driver of harness/c14.py (layouts, histories of claim/unclaim/auto-cl
 comment operations, correspondence with Comments.v); the monitors that count here are: printed text and the
 sequence of non-placeholder tokens (identity, kind, text) unchanged after every call, the token set unchanged,
 and a read-only sweep (every public attribute of every reachable model and wrapper, iteration, len, ==, hash,
-repr, copy.deepcopy, printing) that must leave the store snapshot untouched."""
-from harness import common, c14
+repr, copy.deepcopy, printing) that must leave the store snapshot untouched.
+The theorems about lazily created / cached wrappers and views, wrapper copies and reads through views
+(C04_wrapper_read_step, C04_read_history: WholeField.v) are tied to the implementation by a slice of
+harness/wholefield.py: the same histories as C10/C19 are run on the real code and replayed on WholeField.v inside Coq
+(caches, handler lists, what every handle shows, after every step), and after every step that is not an edit the
+monitor C04:read-step-changed-a-list compares every list, view, wrapped Repeated, the printed text and the token
+identities of the documents with what they were before it."""
+import json
+
+from harness import common, c14, wholefield
 
 
 def run(ctx: common.Ctx):
     ctx.rule = c14.RULE
     ctx.assumptions += c14.ASSUME + [
         'getters/iteration/==/hash/deepcopy/print do not write the store: true of the model by construction, '
-        'established for the implementation by the read-only sweep (monitor), not by a theorem']
-    ctx.require_coq(['properties/C04'], extra_targets=['CommentsRun'])
+        'established for the implementation by the read-only sweep and the read-step monitor (monitors), not by a '
+        'theorem; the theorems about cached wrappers / views / wrapper copies are about WholeField.v, validated against '
+        'the implementation step by step (whole-field correspondence)']
+    ctx.require_coq(['properties/C04'], extra_targets=['CommentsRun', 'WholeFieldRun'])
     c14.run_all(ctx, 'C04', 330, 1500)
+    wholefield.run_all(ctx, 50, 400, sigs={wholefield.SIG_READ})
 
 
 def search(ctx: common.Ctx):
     c14.run_all(ctx, 'C04', 330, 1500)
+    wholefield.run_all(ctx, 50, 400, sigs={wholefield.SIG_READ})
 
 
 def replay(ctx, path):
+    data = json.loads(open(path).read())
+    f = data.get('failure') or (data.get('what_no_longer_checks') or [{}])[0]
+    if (f.get('witness') or {}).get('wholefield'):
+        return wholefield.replay(ctx, f['witness'])
     return c14.replay_witness(ctx, 'C04', path)
